@@ -54,10 +54,15 @@ for pid in sorted(os.listdir(os.path.join(HERE, "seeded"))):
     }
     meta["check_run"] = {"cmd": f"lib/run_seed.sh {pid[:3]} quick {pid} (git -C /repo apply seeded/{pid}/patch.diff; ./check {pid[:3]} --tier quick; git -C /repo checkout -- .)",
                          "caught": caught, "verdict_kind": kind, "violation_lines": viol[:3]}
+    meta["check_run"].pop("missed_at_first", None)
+    meta["check_run"].pop("strengthened_before_first_run", None)
     if pid in FIRST_MISSED:
-        meta["check_run"]["missed_at_first"] = FIRST_MISSED[pid]
+        if FIRST_MISSED[pid].startswith("strengthened after reading"):
+            meta["check_run"]["strengthened_before_first_run"] = FIRST_MISSED[pid]
+        else:
+            meta["check_run"]["missed_at_first"] = FIRST_MISSED[pid]
     json.dump(meta, open(mp, "w"), indent=1)
-    rows.append((pid, meta.get("summary", "")[:150].replace("|", "/"), "yes" if ver.get("confirmed") else str(ver.get("confirmed")), "caught" if caught else "MISSED", kind, "missed at first: " + FIRST_MISSED[pid] if pid in FIRST_MISSED else ""))
+    rows.append((pid, meta.get("summary", "")[:150].replace("|", "/"), "yes" if ver.get("confirmed") else str(ver.get("confirmed")), "caught" if caught else "MISSED", kind, (FIRST_MISSED[pid] if FIRST_MISSED[pid].startswith(("strengthened", "missed at first")) else "missed at first: " + FIRST_MISSED[pid]) if pid in FIRST_MISSED else ""))
 print("| Seed | Change (abridged) | confirmed | check verdict | how | note |")
 print("|---|---|---|---|---|---|")
 for r in rows:
